@@ -18,10 +18,29 @@ model of `Deserialize` on a storage-less trie (`New(nil, nil)`).
 
 Hypotheses: hashes have 32 bytes; sizes/weights below 2^64 (`PTOK`) for every spec tree an operation is applied to; the
 exported byte strings are shorter than 2^64 bytes (`hsz`; needed by the CBOR envelope round trip). No collision-freeness
-hypothesis is needed for C12. Both collection strategies of GetPath are the one marking function of the model (see
-notes/C12.md).
+hypothesis is needed for C12.
+
+GetPath has two collection strategies: the keys one after the other from the root (`markAll`), or — for more than
+`pathParallelThreshold` keys (a constant extracted from the Go source into Verif.Gen.Constants) on a branch root — one
+walk per key started at the root's child, the root marked separately (`markParallel`; Go runs these walks in goroutines,
+serialised per child by a mutex, in scheduler order; the model in list order). Both are modelled, `getPath` chooses like
+the Go code, and
+
+  parallel_order_irrelevant     on a branch root that represents a spec trie (the source tries of `export_import`) the walks
+                  of the parallel strategy succeed in EVERY order and every order yields the same marked trie: whatever
+                  serialisation the scheduler picks, the export is the one of the model's list order
+                  (`parallel_order_irrelevant_general`: for any trie, provided each walk alone succeeds;
+                  `parallel_order_needs_each`: success in one order alone does not suffice in the MODEL, whose walks run
+                  on a fuel budget that a chain of references in an adversarial storage can exhaust in one order only)
+
+  mark_parallel_eq_sequential   on a branch root the two strategies report the same error and, when marking succeeds, leave
+                  the same marked trie
+  getPath_strategy_irrelevant   so `getPath` returns what the purely sequential `getPathSeq` returns — always the same
+                  result, and on success the same trie state — whatever the threshold is: `export_import` and `C12`
+                  are statements about `getPath` itself and hold for every number of keys
 -/
 import Verif.Lemmas.WmptExport
+import Verif.Lemmas.WmptMarkPerm
 import Verif.Model.WmptHistory
 import Verif.Model.WmptToy
 namespace Verif.Props.C12
@@ -51,6 +70,64 @@ theorem import_checks_root (H : Bytes → Bytes) (ps : List PairD) (r : WN) (h :
            simp only [Res.ok.injEq, Option.some.injEq] at h
            subst h
            exact (Decidable.not_not.mp hne).symm)
+
+/-- the two collection strategies of GetPath below a branch root: same error; on success (for at least one key — with no
+    key the parallel strategy, which GetPath never takes then, would still set the root's mark) the same marked trie -/
+theorem mark_parallel_eq_sequential (hasDb : Bool) (s : Store) (h : Bytes) (ch : Nib → WN) (w : Nat) (d tc : Bool)
+    (keys : List (List Nib)) :
+    (markParallel hasDb s (.routing h ch w d tc) keys).err = (markAll hasDb s (.routing h ch w d tc) keys).err ∧
+    ((markAll hasDb s (.routing h ch w d tc) keys).err = none → keys ≠ [] →
+      (markParallel hasDb s (.routing h ch w d tc) keys).node = (markAll hasDb s (.routing h ch w d tc) keys).node) :=
+  Verif.Wmpt.mark_parallel_eq_sequential hasDb s h ch w d tc keys
+
+/-- `getPath` (which picks the strategy by the extracted threshold) answers like the purely sequential `getPathSeq`:
+    the same result in every case; on success the same trie state; after a failure the two states differ at most in the
+    export marks left in the root -/
+theorem getPath_strategy_irrelevant (H : Bytes → Bytes) (t : WT) (keys : List (List Nib)) :
+    (getPath H t keys).2 = (getPathSeq H t keys).2 ∧
+    (∀ data, (getPathSeq H t keys).2 = .ok data → getPath H t keys = getPathSeq H t keys) ∧
+    (∀ n, { (getPath H t keys).1 with root := n } = { (getPathSeq H t keys).1 with root := n }) :=
+  Verif.Wmpt.getPath_strategy_irrelevant H t keys
+
+/-- the walks of the parallel strategy on different children of the root commute (the model runs them in list order, the
+    Go code concurrently): swapping two adjacent successful walks with different first nibbles changes nothing -/
+theorem parallel_walks_commute (hasDb : Bool) (s : Store) (ch : Nib → WN) (k1 k2 : Nib) (ks1 ks2 : List Nib)
+    (rest : List (List Nib)) (hne : k1 ≠ k2)
+    (h1 : (markToCollect hasDb s (fuelFor (k1 :: ks1) - 1) (ch k1) ks1).err = none)
+    (h2 : (markToCollect hasDb s (fuelFor (k2 :: ks2) - 1) (ch k2) ks2).err = none) :
+    markKids hasDb s ch ((k1 :: ks1) :: (k2 :: ks2) :: rest) = markKids hasDb s ch ((k2 :: ks2) :: (k1 :: ks1) :: rest) :=
+  markKids_comm hasDb s ch k1 k2 ks1 ks2 rest hne h1 h2
+
+/-- every order of the walks of the parallel strategy — every serialisation the goroutine scheduler can pick — succeeds
+    and yields the same marked trie, below a branch root that represents a spec trie with keys of one length -/
+theorem parallel_order_irrelevant (H : Bytes → Bytes) (hlen : ∀ x, (H x).length = 32) (s : Store) {h : Bytes}
+    {ch : Nib → WN} {w : Nat} {d tc : Bool} {t : PT} {m : Nat}
+    (hrep : RepS H s (.routing h ch w d tc) t) (hp : Proper (.routing h ch w d tc))
+    (hne : NoEmp (.routing h ch w d tc)) (hu : Uniform m t) (hok : PTOK t)
+    (keys1 keys2 : List (List Nib)) (hperm : keys1.Perm keys2) (hk : ∀ key ∈ keys1, key.length = m) :
+    markParallel true s (.routing h ch w d tc) keys2 = markParallel true s (.routing h ch w d tc) keys1 ∧
+      (markParallel true s (.routing h ch w d tc) keys1).err = none :=
+  markParallel_perm_rep hlen hrep hp hne hu hok keys1 keys2 hperm hk
+
+/-- …for any trie and storage, provided the walk of every key alone succeeds -/
+theorem parallel_order_irrelevant_general (hasDb : Bool) (s : Store) (h : Bytes) (ch : Nib → WN) (w : Nat) (d tc : Bool)
+    (keys1 keys2 : List (List Nib)) (hp : keys1.Perm keys2) (he : ∀ key ∈ keys1, KidOK hasDb s ch key) :
+    markParallel hasDb s (.routing h ch w d tc) keys2 = markParallel hasDb s (.routing h ch w d tc) keys1 ∧
+      (markParallel hasDb s (.routing h ch w d tc) keys1).err = none :=
+  markParallel_perm hasDb s h ch w d tc keys1 keys2 hp he
+
+/-- the sequential strategy is order-independent in the same sense, for every root -/
+theorem sequential_order_irrelevant (hasDb : Bool) (s : Store) (n : WN) (keys1 keys2 : List (List Nib))
+    (hp : keys1.Perm keys2) (he : ∀ key ∈ keys1, (markToCollect hasDb s (fuelFor key) n key).err = none) :
+    markAll hasDb s n keys2 = markAll hasDb s n keys1 ∧ (markAll hasDb s n keys1).err = none :=
+  markAll_perm hasDb s n keys1 keys2 hp he
+
+/-- success of the walks in ONE order does not imply success in another order in the model (fuel; a storage holding a
+    chain of twelve references) — hence the "each walk alone succeeds" hypothesis above -/
+theorem parallel_order_needs_each :
+    ¬ ∀ (hasDb : Bool) (s : Store) (ch : Nib → WN) (keys1 keys2 : List (List Nib)), keys1.Perm keys2 →
+      (markKids hasDb s ch keys1).2 = none → markKids hasDb s ch keys2 = markKids hasDb s ch keys1 :=
+  markKids_perm_needs_each
 
 /-- export / import: same root hash and weight, requested paths free of references, source intact -/
 theorem export_import (H : Bytes → Bytes) (hlen : ∀ x, (H x).length = 32) (t : WT) (ts : PT) (keys : List (List Nib))
